@@ -359,7 +359,8 @@ class EvalOuter(QSpec):
         n, elem = stack_view(it, env['queue_'])
         ii = z3.Int('ii!eo')
         nonin = lambda x: z3.And(S0.dom(x), S0.typ(x) != GT['INPUT'])
-        return [('computed-values-are-den', z3.Implies(z3.And(am.dom(l), nonin(l)), am.val(l) == theory.state_of_bool(D(l)))),
+        holds_den = below(am.val(l), D(l)) if self.c.sound else am.val(l) == theory.state_of_bool(D(l))      # partial assignments: U or den of the completion
+        return [('computed-values-are-den', z3.Implies(z3.And(am.dom(l), nonin(l)), holds_den)),
                 ('initial-keys-kept', z3.Implies(d1(l), z3.And(am.dom(l), am.val(l) == v1(l)))),
                 ('keys-are-initial-or-non-input-gates', z3.Implies(am.dom(l), z3.Or(d1(l), nonin(l)))),
                 ('stack-holds-non-input-gates', z3.Implies(z3.And(i >= 0, i < n), nonin(elem(i)))),
@@ -440,8 +441,13 @@ class FinalDefaults:
 class EvaluateCircuit(EvaluateFull):
     qualname, name = 'Circuit.evaluate_circuit', 'evaluate_circuit'
 
+    sound = False
+
+    def base_setup(self, it, ctx):
+        return EvaluateFull.setup(self, it, ctx)
+
     def setup(self, it, ctx):
-        args, kwargs, st = EvaluateFull.setup(self, it, ctx)
+        args, kwargs, st = self.base_setup(it, ctx)
         h, S0 = st['h'], st['S0']
         self.h, self.S0, self.spec = h, S0, st['spec']
         u, g = z3.Consts('u!w5 g!w5', LabelSort)
@@ -504,6 +510,7 @@ def add_c15(rep, pv, it):
     pv.start_child(TotalFull, _prepare)
     pv.start_child(lambda: TotalStack(), _prepare)
     pv.start_child(lambda: SoundFull(), _prepare)
+    pv.start_child(lambda: SoundStack(), _prepare)
 
 
 # =====================================================================================================================
@@ -608,6 +615,26 @@ class SoundFull(EvaluateFull):
             seq.fold_havoc = lambda it_: Sym(it_.ctx.fresh(StateSort, 'acc'))
         it.fold_for = fold_for
         return [c, am], {}, st
+
+    def post(self, it, ctx, result, st):
+        it.fold_for = None
+        S0, D = st['S0'], st['spec']['D']
+        if not isinstance(result, AssignMap):
+            yield ('returns-the-assignment-dict', z3.BoolVal(False))
+            return
+        l = ctx.fresh(LabelSort, 'lres')
+        yield ('every-gate-has-a-value', z3.Implies(S0.dom(l), result.dom(l)))
+        yield ('every-value-is-undefined-or-den-of-the-completion', z3.Implies(S0.dom(l), below(result.val(l), D(l))), {'witness': 'unsound-under-partial-assignment'})
+        yield ('circuit-unchanged', z3.BoolVal(not [e for e in st['h'].events if e[0] in ('gate-write', 'gate-del')]))
+
+
+class SoundStack(EvaluateCircuit):
+    """evaluate_circuit (explicit stack) under an arbitrary partial assignment: every value is Undefined or den of an arbitrary completion"""
+    name = 'evaluate_circuit/partial-assignment-sound'
+    sound = True
+
+    def base_setup(self, it, ctx):
+        return SoundFull.setup(self, it, ctx)
 
     def post(self, it, ctx, result, st):
         it.fold_for = None
